@@ -62,7 +62,7 @@ CHECKS = [
         'text': 'All 131071 bit sequences of length <= 16 are written to FixedIO, StandardIO and KeyboardIO and all 65793 input '
                 'byte strings of length <= 2 are read from FixedIO (exhaustive), plus random sequences to 4096 bits with '
                 'interleaved reads, keyboard event scripts x read counts against a polling-protocol model, and StandardIO in a '
-                'subprocess through real pipes under latin-1 and UTF-8 stdin. The collected output is also looked at mid-stream.',
+                'subprocess through real pipes under latin-1 and UTF-8 stdin. The collected output is also looked at mid-stream. Outputs of 4095-12289 bytes are written to every device.',
         'note': 'interactive terminals and the pygame window are out of reach; StandardIO under UTF-8 stdin is a recorded known finding',
     },
     {
@@ -73,7 +73,7 @@ CHECKS = [
                 'fast and native flat/hybrid/paged/measure with and without the ring; what leaves run() (identity of the '
                 'exception, wrapping, cause, statistics) and the device-side record, op count, last-ops list and memory must '
                 'equal the reference machine stopped at that call. Real setitimer/SIGINT interrupts on endless loops check the '
-                'asynchronous case: the stopped state must be a sub-step state of the next op at the reported count. The foreign failure is drawn from 22 built-in exception families; a worker killed by a fatal signal is a verdict. Rings of length 0 are configurations too.',
+                'asynchronous case: the stopped state must be a sub-step state of the next op at the reported count. The foreign failure is drawn from 22 built-in exception families; a worker killed by a fatal signal is a verdict. Rings of length 0 are configurations too. One long-run shard interrupts a 16384-op loop after more than 2^32 executed ops and checks the reported count against the loop\'s period.',
         'note': 'native signals are polled every 2^18 ops, so native async stops are observed only there; for exceptions that '
                 'leave run() no statistics object exists to inspect',
     },
@@ -85,7 +85,7 @@ CHECKS = [
                 'device reads, the effect of its writes on later ops and the final memory must equal the reference machine '
                 'executing the same script. The headless screen is fed random and structure-aware command streams and must '
                 'agree with an independently written decoder of the documented layout (frames, pixels, palette, rejection '
-                'point, device-error type); generated screen-driving programs must present the same frame hashes on all engines. Devices also read and patch memory inside attach_memory. Packed bytes at any word-aligned address; palette sizes around 2^bpp.',
+                'point, device-error type); generated screen-driving programs must present the same frame hashes on all engines. Devices also read and patch memory inside attach_memory. Packed bytes at any word-aligned address; palette sizes around 2^bpp. Geometry big-first puts whole loaded pages inside the flat window next to page-backed segments at round and arbitrary page numbers.',
         'note': 'interactive pygame devices cannot be exercised (pygame absent); device writes outside segments are unspecified',
     },
     {
@@ -108,7 +108,7 @@ CHECKS = [
                 'missing/repeated files) plus token-, byte- and line-level mutations of generated valid programs and stl '
                 'programs, at all widths and versions: assemble() must succeed or raise a FlipJumpException that is not the '
                 'generic "unknown exception" wrapper, whose message names the construct where the generator knows it, within the '
-                'watchdog, leaving no loadable output file. Classes added by the seeding rounds: constants and literals of thousands of digits in 20+ positions, invisible and Python-only white-space characters, depth limit reached without recursion, reps/pads beyond a small memory (bounded work, CPU-time hang verdict), internal-name collisions; every third assembly also writes the debugging file, every seventh the statistics. Valid literals in every accepted notation, and reps/pads beyond a small memory, complete the classes; every 5th shard runs under python -O.',
+                'watchdog, leaving no loadable output file. Classes added by the seeding rounds: constants and literals of thousands of digits in 20+ positions, invisible and Python-only white-space characters, depth limit reached without recursion, reps/pads beyond a small memory (bounded work, CPU-time hang verdict), internal-name collisions; every third assembly also writes the debugging file, every seventh the statistics. Valid literals in every accepted notation, and reps/pads beyond a small memory, complete the classes; every 5th shard runs under python -O. A label in front of every statement kind (top level, namespace, macro body) is a valid class that must never reach the catch-all.',
         'note': 'never-hangs is bounded progress (30 s / 120 s with stl); astronomically large constants and unbounded rep counts '
                 'are unbounded-work programs, confined to a reported-only class',
     },
@@ -119,7 +119,7 @@ CHECKS = [
                 'warning modes, failing inputs of every C14 error class, recursion depths 5..5000, the stl at widths where it does '
                 'not fit, the probe itself twice) are followed by a probe assembly whose .fjm and .fjd bytes must equal those '
                 'of the probe assembled in a fresh process, under several PYTHONHASHSEED values, another working directory and a '
-                'copy of the sources elsewhere. Probes a fresh process rejects must be rejected identically after every history; the corpus includes layout-shifted stl programs, a warning-only source, a deep-expression source and >2^16-word images, with targeted shapes (last-stage failure / small recursion depth / bigger image / tolerant warning mode right before the probe). 30 % of histories write every output over the same two paths; targeted shapes also cover the constants of the first stl program, a many-segment program under other hash seeds, the same file under another short name, and relative paths after a change of directory.',
+                'copy of the sources elsewhere. Probes a fresh process rejects must be rejected identically after every history; the corpus includes layout-shifted stl programs, a warning-only source, a deep-expression source and >2^16-word images, with targeted shapes (last-stage failure / small recursion depth / bigger image / tolerant warning mode right before the probe). 30 % of histories write every output over the same two paths; targeted shapes also cover the constants of the first stl program, a many-segment program under other hash seeds, the same file under another short name, and relative paths after a change of directory. Targeted histories: a too-deep probe right after a failing call that asked for a large depth; a user file named like a library file after the library was cached.',
         'note': 'observed at the files only; the parse cache is exercised cold, warm, warm for another width and warm for the other warning mode',
     },
     {
@@ -129,7 +129,7 @@ CHECKS = [
                 'through the fj one-step flow (with -o and, captured by a sys.addaudithook wrapper around the real main(), '
                 'without -o), the fj --asm -o / --run two-step flow and flipjump.assemble/run under random option '
                 'combinations; .fjm and .fjd bytes, program stdout and termination cause/op count must agree, and the defaults '
-                '(width 64, version 3 with -o, 1 without, stl included) are read from the produced headers. The API is also used as a library: sessions of 3-6 assemblies in one process (good, failing, repeated, the stl given explicitly) each compared with a fresh fj process; the one-call assemble_and_run is a fourth route; a warning-bearing program runs through every route in both warning modes; -o with a preset and no -v must equal the same command with -v 3. Output paths may already hold longer files; refusals must agree on every route including the temporary-file flow with its own default version; deep expressions with the API hosted under a raised recursion limit; a source path through a symbolic link; many long file names.',
+                '(width 64, version 3 with -o, 1 without, stl included) are read from the produced headers. The API is also used as a library: sessions of 3-6 assemblies in one process (good, failing, repeated, the stl given explicitly) each compared with a fresh fj process; the one-call assemble_and_run is a fourth route; a warning-bearing program runs through every route in both warning modes; -o with a preset and no -v must equal the same command with -v 3. Output paths may already hold longer files; refusals must agree on every route including the temporary-file flow with its own default version; deep expressions with the API hosted under a raised recursion limit; a source path through a symbolic link; many long file names. Also: sources whose names are 251-255 bytes long, and programs whose output looks like escape sequences or holds bytes above 127.',
         'note': 'the API has no lzma-preset parameter, so version-3 bytes are compared with the API only at the default preset',
     },
     {
@@ -139,7 +139,7 @@ CHECKS = [
                 'segment, reserve; every number rendered as an expression over literals, constants, labels and $) at all widths '
                 'and versions are assembled and read back; every statement word, every label and every reserved word must equal '
                 'an independently computed denotation, each wflip is followed in the loaded image (exact set bits, popcount ops, '
-                'return address, auxiliary ops off user space), and layouts the model proves impossible must be rejected. Includes parity-only impossible layouts (odd start / odd span / both) and literals of 4000+ digits. Every 4th shard runs under python -O; flaws include words outside [0,2^w) and negative reserves; expressions include logical operators over labels and floor divisions.',
+                'return address, auxiliary ops off user space), and layouts the model proves impossible must be rejected. Includes parity-only impossible layouts (odd start / odd span / both) and literals of 4000+ digits. Every 4th shard runs under python -O; flaws include words outside [0,2^w) and negative reserves; expressions include logical operators over labels and floor divisions. Conditionals are also chained without parentheses.',
         'note': 'one-sided on layout: model-impossible-but-assembled is a violation, model-possible-but-rejected is counted '
                 '(the appended wflip area may legitimately collide); pad-hole contents are unspecified',
     },
@@ -151,7 +151,7 @@ CHECKS = [
                 'labels and :bN:/:hN:/:BN:/:f:/:j: variables with indices, help, unknown and malformed lines); every printed pause '
                 '(kind, address, ops executed) and read result, the final termination, the device-side output and the memory '
                 'after the session must equal a debugger model on the reference machine, which without quit equals the '
-                'undebugged run.',
+                'undebugged run. The same model judges sessions driven through the fj command itself (run-only with -d FILE, one-step with -d FILE, bare -d or none; -b/-B on labels and macro-start names; silent or not).',
         'note': 'the command grammar is transcribed from DEBUGGER_HELP; only the featured loop can be debugged',
     },
     {
@@ -162,7 +162,7 @@ CHECKS = [
                 'marker and compares them with a spec table transcribed from the doc comments, then pokes the next operand '
                 'values. Single-macro programs enumerate all operand values when the macro reads <= 16 bits (all 65536 pairs of '
                 '8-bit operands) and sample boundary-biased values above; sequence programs of 4-40 random applications over '
-                'shared variables check composition; widths 16/32/64; a slice of every program is re-run on the pure-Python loop.',
+                'shared variables check composition; widths 16/32/64; a slice of every program is re-run on the pure-Python loop. Every variable has a second label; an operand pair bound to one variable is spelled with both names.',
         'note': 'the spec table is my transcription of the doc comments; undocumented operand aliasing is not generated; '
                 'bit.address_and_variable_xor and internal helper macros are not covered',
     },
@@ -173,7 +173,7 @@ CHECKS = [
                 'denote (parameter, @ local, global, rep iterator, constant); spellings come from a six-name pool so caller and '
                 'callee identifiers collide at every depth. The macro rendering (call DAGs, arity overloading, nested namespaces '
                 'with dotted/relative names, reps with counts 0..5, 1-3 files) and the hand-inlined rendering (arguments '
-                'substituted in parentheses, locals renamed apart, reps unrolled) must assemble to identical segments and words. Namespaces up to four deep with k-dot relative names; continuation lines and CRLF files. Every 6th program is assembled behind a cached stl prefix; macros that pad by a parameter; namespace constants and late constants spelled like parameters; one guarded compile-time recursion (120-850 levels) per shard.',
+                'substituted in parentheses, locals renamed apart, reps unrolled) must assemble to identical segments and words. Namespaces up to four deep with k-dot relative names; continuation lines and CRLF files. Every 6th program is assembled behind a cached stl prefix; macros that pad by a parameter; namespace constants and late constants spelled like parameters; one guarded compile-time recursion (120-850 levels) per shard. Call chains exactly on a configured max_recursion_depth, and globals of enclosing namespaces spelled like a macro\'s own names, are generated too.',
         'note': 'relies on the scoping rules of DESIGN Appendix B; extern (>) labels and label-valued parameters are not generated; '
                 'the inlined side is itself judged by C02',
     },
@@ -196,7 +196,7 @@ CHECKS = [
                 'variable and sp with a model transcribed from the `like: *ptr = src` doc formulas, and the 10-bit id each SYNC '
                 'spells with the predicted next sync point (call/return, fcall/fret, ptr_jump). Pair programs walk all ordered '
                 'pairs of target cells through two pointers, sequence programs mix 10-40 applications with balanced push/pop, '
-                'call nests go to depth 6; hex at w=32/64, bit pointers at w=16/32/64; slices re-run on the pure-Python loop. Before the first push every cell of the initialised stack must be an empty data cell (documented capacity).',
+                'call nests go to depth 6; hex at w=32/64, bit pointers at w=16/32/64; slices re-run on the pure-Python loop. Before the first push every cell of the initialised stack must be an empty data cell (documented capacity). The quick tier takes an odd and an even length per vector macro; variables exactly as long as the macro uses are followed by cells holding code addresses.',
         'note': 'documented-as-assumed-away usage (empty-stack pops, unaligned pointers, overlapping operands) is never generated; '
                 'library scratch registers and the return-register content after fcall/fret are not compared',
     },
@@ -210,7 +210,7 @@ CHECKS = [
                 'forms, shifts, cond_jumps, mul, div/idiv with every rem_opt). Single-macro programs enumerate every operand '
                 'value when the macro reads <= 16 bits (all 65536 digit pairs for n=2) and sample boundary-biased values above; '
                 'sequence programs of random applications over shared variables check that no carry or table state leaks; '
-                'slices are re-run on the pure-Python loop. Also with the documented standalone inits (hex.tables.init_shared + the required table) at drawn positions incl. w=16, and with a carry left set by an earlier documented macro (every other macro must still compute its formula). Sequence programs have reserved space between applications and define user constants spelled like the library\'s parameters.',
+                'slices are re-run on the pure-Python loop. Also with the documented standalone inits (hex.tables.init_shared + the required table) at drawn positions incl. w=16, and with a carry left set by an earlier documented macro (every other macro must still compute its formula). Sequence programs have reserved space between applications and define user constants spelled like the library\'s parameters. Loop-based macros (hex.mul, hex.div) also run at lengths 7-17.',
         'note': 'spec table built by a sub-agent under the rule "transcribe the documentation, never the body", reviewed; '
                 'inputs the documentation leaves open (dirty undeclared state for table-using macros, overflowing idiv) are '
                 'counted as unspecified; w=16 is not exercised (hex.init does not fit)',
